@@ -294,7 +294,16 @@ int stop(m_mod_t *mod, bool stopping) {
 
 int mod_deregister(m_mod_t **mod, bool from_user) {
     M_PARAM_ASSERT(mod);
-    M_MOD_ASSERT((*mod));
+    if (from_user) {
+        M_MOD_ASSERT((*mod));
+    } else {
+        /*
+         * Internal deregistration (context teardown, module replacement):
+         * the thread's context may already be detached, do not look it up.
+         */
+        M_PARAM_ASSERT(*mod);
+        M_RET_ASSERT(!m_mod_is(*mod, M_MOD_ZOMBIE), -EACCES);
+    }
     
     m_mod_t *m = *mod;
     M_MOD_CTX(m);
@@ -327,7 +336,7 @@ int mod_deregister(m_mod_t **mod, bool from_user) {
              * Destroy context if it is not looping and
              * it has no more modules in it and is not a persistent ctx
              */
-            if (c->state == M_CTX_IDLE && m_map_len(c->modules) == 0 && !(c->flags & M_CTX_PERSIST)) {
+            if (from_user && c->state == M_CTX_IDLE && m_map_len(c->modules) == 0 && !(c->flags & M_CTX_PERSIST)) {
                 ret = m_ctx_deregister();
             }
         }
